@@ -34,6 +34,7 @@ def og(x):
 PKG_INIT = 'from .sib import sf\nPKGCONST = 5\n'
 PKG_SIB = 'def sf(x):\n    return x + 7\n\n\ndef sg(x):\n    return x * 3\n'
 PKG_DEEP = 'def df(x):\n    return x + 1000\n'
+PKG_DPKG = 'def dpf(x):\n    return x + 5000\n'
 
 IMPORT_STYLES = [
     ('import helper', 'helper.hf(1)'),
@@ -51,6 +52,7 @@ IMPORT_STYLES = [
     ('from pkgk.sib import sg', 'sg(5)'),
     ('from pkgk.sub import deep', 'deep.df(6)'),
     ('from pkgk.sub.deep import df', 'df(7)'),
+    ('from pkgk.sub import dpkg', 'dpkg.dpf(8)'),
     ('import os.path', 'os.path.basename("a/b")'),
     ('import json as js', 'js.dumps([1])'),
 ]
@@ -102,7 +104,7 @@ def gen_program(rng, module_mode=False):
         lines.append('    print(%r, repr(%s))' % (ex[:30], ex))
     text = '\n'.join(lines) + '\n'
     files = {'helper.py': HELPER, 'other.py': OTHER, 'pkgk/__init__.py': PKG_INIT, 'pkgk/sib.py': PKG_SIB, 'pkgk/sub/__init__.py': '',
-             'pkgk/sub/deep.py': PKG_DEEP}
+             'pkgk/sub/deep.py': PKG_DEEP, 'pkgk/sub/dpkg/__init__.py': PKG_DPKG}
     if module_mode:
         rel = ['from . import sib as rsib', 'from .sib import sg as rsg', 'from .sub import deep as rdeep', 'from .sub.deep import df as rdf']
         chosen = rng.sample(rel, rng.below(3) + 1)
